@@ -36,6 +36,19 @@ def total(w, a, b):
 def pick_even(xs, n):
     return [i for i in range(n) if xs[i] == 0]
 
+def rebound(y, n):
+    y = y * 2
+    t = 0.
+    for i in range(n):
+        t += y[i]
+    return t
+
+def reshaped(m, n):
+    v = m
+    for i in range(n):
+        v = v[0]
+    return v
+
 def unbound(flag):
     for i in range(3):
         if flag:
@@ -166,6 +179,33 @@ class PickEven(Contract):
             "wrong_every_position_selected": L == z(a.n)}
 
 
+class Rebound(Contract):
+    """an invariant that reads a data parameter the function has re-bound to another array: refused, not proved about the copy"""
+    key, prop = "t.py::rebound", "T"
+    allow_unconstrained_exit = True
+
+    def setup(self, E, v):
+        n = E.size("n")
+        return dict(y=E.nd("y", (n,)), n=n)
+    loops = {0: lambda E, L: {"same_length": z(L["y"].shape[0]) == z(L["n"])}}
+
+    def ensures(self, E, a, res, old):
+        return {"a_number": z3.BoolVal(True)}
+
+
+class Reshaped(Contract):
+    """a loop that changes the rank of an array it re-binds: the invariant cut has one representation per variable - refused"""
+    key, prop = "t.py::reshaped", "T"
+    allow_unconstrained_exit = True
+
+    def setup(self, E, v):
+        return dict(m=E.nd("m", (E.size("r", 1), E.size("c", 1))), n=E.size("n"))
+    loops = {0: lambda E, L: {"trivial": z3.BoolVal(True)}}
+
+    def ensures(self, E, a, res, old):
+        return {"something": z3.BoolVal(True)}
+
+
 def run_all():
     from .api import make_registry
     repo = _Repo()
@@ -179,6 +219,14 @@ def run_all():
         Total: {"T.total.post.wrong_sum_one_more_term"},
         PickEven: {"T.pick_even.post.wrong_every_position_selected"},
     }
+    for cls, needle in ((Rebound, "re-bound to another array"), (Reshaped, "one representation per variable")):
+        c = cls()
+        rep = verify_function(repo, {c.key: c}, c)
+        if not rep.unsupported or needle not in rep.unsupported:
+            print("selftest MISMATCH", cls.__name__, "expected a refusal mentioning %r, got %r" % (needle, rep.unsupported))
+            ok = False
+        else:
+            print("selftest ok:", cls.__name__, "refused as expected")
     for cls, bad in expect.items():
         c = cls()
         rep = verify_function(repo, {c.key: c}, c)
